@@ -238,6 +238,16 @@ pub const STMT_CORE: &[&str] = &[
     "function f()\n\treturn 1\n\t-- c\nend",
     "local t = {\n\t1,\n\t-- c\n}",
     "x = t[function() return 1 end]",
+    "while (a) and (b) do end",
+    "while a   and   b do f() end",
+    "repeat f() until (a) and (b)",
+    "if (a) and (b) then f() end",
+    "if a   ==   b then f() end",
+    "for i = (a) + (b), (c) do end",
+    "for k, v in (pairs)((t)) do end",
+    "if a then\n\tf()\n-- c\nelse\n\tg()\nend",
+    "if a then\n\tf()\n-- c\nelseif b then\n\tg()\n-- d\nend",
+    "while a do\n\tf()\n-- c\nend",
     "x = t[([[x]])]",
     "y = { [([[k]])] = 1 }",
     "x = t[ [=[x]=] ]",
@@ -1617,6 +1627,7 @@ pub const REQ_ELEMS: &[(&str, u8, &str, Dial)] = &[
     ("local S = game:GetService(\"S\")", 1, "S", Dial::Core),
     ("local R = game:GetService(\"R\");", 1, "R", Dial::Core),
     ("local c = require(\"c\") :: T", 0, "c", Dial::Luau),
+    ("local m = require(\n\t\"m\"\n)", 0, "m", Dial::Core),
     ("local x, y = require(\"x\")", 2, "", Dial::Core),
     ("local n = 1", 2, "", Dial::Core),
     ("f()", 2, "", Dial::Core),
@@ -1743,6 +1754,8 @@ pub fn ws_variants(base: &Case, thorough: bool) -> Vec<Case> {
         }
     }
     // doubled spaces between tokens, and a leading indentation on every line
+    // (exact-width decisions measured on the unformatted text show up with this one)
+    v.push(mk(t.replace(' ', "   ")));
     if thorough {
         v.push(mk(t.replace(' ', "  ")));
     }
@@ -1883,9 +1896,10 @@ pub fn f_nest(every: usize) -> Vec<Case> {
             continue;
         }
         let body = st.text.trim_end_matches('\n');
-        for (pre, post) in ENCLOSURES {
+        for (ei, (pre, post)) in ENCLOSURES.iter().enumerate() {
             k += 1;
-            if k % every != 0 {
+            // quick tier: the plain block, the function in a multi-line table field and the callback argument
+            if every > 1 && !matches!(ei, 0 | 9 | 10) {
                 continue;
             }
             // `type` declarations are only allowed at the top level of a file in Luau: the parser filters them out
